@@ -124,7 +124,7 @@ func c05(c *Ctx) (*report.Result, error) {
 	res.RuleDoc["O5.1"] = "index discipline: every element access of proxyIDRingBuffer.entries uses (head + k) % len(entries) with the length read from the very slice that is indexed and nothing in between that can replace it"
 	res.RuleDoc["O5.2"] = "growth preserves order: ensureCapacity copies entry (head+i)%len to position i of the new slice for every i < size, and every path that replaces entries resets head to 0; Append ensures capacity before every element store"
 	res.RuleDoc["O5.3"] = "Discard advances head, size and startProxyID by one and the same clamped count; AggregateUpTo clamps its count to size and writes no field of the buffer"
-	res.Floors["O5.1"] = 5
+	res.Floors["O5.1"] = 3
 
 	sp, err := c.Prog.SSAPkg("proxy")
 	if err != nil {
@@ -243,6 +243,14 @@ func c05(c *Ctx) (*report.Result, error) {
 						continue
 					}
 					okCopy = true
+				}
+			}
+			if !okCopy {
+				// the two-segment copy() idiom: [head:] to position 0, then [:head] to position len-head
+				if good, w := twoSegmentCopy(f, mk); good {
+					okCopy = true
+				} else if w != "" {
+					why = w
 				}
 			}
 			res.Check(okCopy, "O5.2", "ensureCapacity: newEntries[i] = entries[(head+i) % len] for i < size", fnPos(c.Prog, f), "order-preserving copy starting at head", why+": entries would be lost or reordered by growth while the buffer is wrapped")
@@ -493,4 +501,78 @@ appendCheck:
 	res.Explanation = "SSA of proxyIDRingBuffer's methods and of every function of package proxy that touches its entries: each element access is checked for the ring-index form with the length read from the very slice indexed (no growth in between); ensureCapacity's copy is checked to move the i-th element counted from head to position i for i < size and to reset head whenever entries is replaced; Append ensures capacity before each store; Discard advances its three cursors by one clamped value; AggregateUpTo is read-only, inclusive, and returns the clamped count it iterated over. These are the structural causes of 'lost, duplicated or reordered by growth, wrap-around or discarding'. Equivalence with the map model for all operation histories, and capacity arithmetic, are not decided."
 	res.Assumptions = []string{"callers hold proxyStreamSender.mu around every buffer operation (checked for the allocator in C02)"}
 	return res, nil
+}
+
+// twoSegmentCopy recognises
+//
+//	copy(newEntries, b.entries[b.head:])
+//	copy(newEntries[len(b.entries)-b.head:], b.entries[:b.head])
+//
+// (the buffer is full when it grows, so these two segments are all entries in order).
+func twoSegmentCopy(f *ssa.Function, mk *ssa.MakeSlice) (bool, string) {
+	var copies []*ssa.Call
+	for _, call := range flow.Calls(f) {
+		if bi, ok := call.Common().Value.(*ssa.Builtin); ok && bi.Name() == "copy" {
+			if cv, ok := call.(*ssa.Call); ok {
+				copies = append(copies, cv)
+			}
+		}
+	}
+	if len(copies) == 0 {
+		return false, ""
+	}
+	if len(copies) != 2 {
+		return false, "growth copies with a number of copy() calls other than the two segments [head:] and [:head]"
+	}
+	isField := func(v ssa.Value, name string) bool {
+		fld, ok := recvFieldLoad(v, nil)
+		return ok && fld == name
+	}
+	type seg struct {
+		dstLow, srcLow, srcHigh ssa.Value
+		dstOK, srcOK          bool
+	}
+	parse := func(c *ssa.Call) seg {
+		var s seg
+		switch d := c.Call.Args[0].(type) {
+		case *ssa.MakeSlice:
+			s.dstOK = d == mk
+		case *ssa.Slice:
+			s.dstOK = d.X == ssa.Value(mk) && d.High == nil
+			s.dstLow = d.Low
+		}
+		if sl, ok := c.Call.Args[1].(*ssa.Slice); ok && isField(sl.X, "entries") {
+			s.srcOK = true
+			s.srcLow, s.srcHigh = sl.Low, sl.High
+		}
+		return s
+	}
+	a, b := parse(copies[0]), parse(copies[1])
+	if !a.dstOK || !a.srcOK || !b.dstOK || !b.srcOK {
+		return false, "a copy() does not go from the old entries into the new slice"
+	}
+	// identify which is the [head:] segment
+	first, second := a, b
+	if !(first.srcLow != nil && isField(first.srcLow, "head") && first.srcHigh == nil) {
+		first, second = b, a
+	}
+	if !(first.srcLow != nil && isField(first.srcLow, "head") && first.srcHigh == nil && first.dstLow == nil) {
+		return false, "no copy of the segment entries[head:] to the start of the new slice"
+	}
+	if !(second.srcLow == nil && second.srcHigh != nil && isField(second.srcHigh, "head")) {
+		return false, "no copy of the wrapped segment entries[:head]"
+	}
+	// destination offset of the wrapped segment: len(entries) - head
+	sub, ok := second.dstLow.(*ssa.BinOp)
+	if !ok || sub.Op != token.SUB || !isField(sub.Y, "head") {
+		return false, "the wrapped segment entries[:head] is not placed at offset len(entries)-head of the new slice"
+	}
+	ln, ok := sub.X.(*ssa.Call)
+	if !ok {
+		return false, "the wrapped segment is not placed at offset len(entries)-head"
+	}
+	if bi, ok := ln.Call.Value.(*ssa.Builtin); !ok || bi.Name() != "len" || !isField(ln.Call.Args[0], "entries") {
+		return false, "the wrapped segment is not placed at offset len(entries)-head"
+	}
+	return true, ""
 }
